@@ -1823,7 +1823,7 @@ tunnel(int tun_fd, struct dnsfd *dns_fds, int bind_fd, int max_idle_time)
 		   or ~1200bytes every 1/50sec = ~0.5 Mbit/sec upstream */
 		for (userid = 0; userid < created_users; userid++) {
 			if (users[userid].active && !users[userid].disabled &&
-			    users[userid].last_pkt + 60 > time(NULL)) {
+			    users[userid].last_pkt + 60 >= time(NULL)) {
 				users[userid].q_sendrealsoon_new = 0;
 				if (users[userid].q_sendrealsoon.id != 0) {
 					tv.tv_sec = 0;
@@ -1898,7 +1898,7 @@ tunnel(int tun_fd, struct dnsfd *dns_fds, int bind_fd, int max_idle_time)
 		/* Send realsoon's if tun or dns didn't already */
 		for (userid = 0; userid < created_users; userid++)
 			if (users[userid].active && !users[userid].disabled &&
-			    users[userid].last_pkt + 60 > time(NULL) &&
+			    users[userid].last_pkt + 60 >= time(NULL) &&
 			    users[userid].q_sendrealsoon.id != 0 &&
 			    users[userid].conn == CONN_DNS_NULL &&
 			    !users[userid].q_sendrealsoon_new) {
